@@ -24,6 +24,32 @@ from ..cast.loader import backend_tu, wrapper_tu
 from ..pyast.index import cffi_mod, u
 
 
+INT_GENERIC = ('#define VERIF_PRIM_OF(T) _Generic((T)0, _Bool: _CFFI_PRIM_UINT8, char: (((char)-1) < 0 ? _CFFI_PRIM_INT8 : _CFFI_PRIM_UINT8), '
+               'signed char: _CFFI_PRIM_INT8, unsigned char: _CFFI_PRIM_UINT8, short: _CFFI_PRIM_INT16, unsigned short: _CFFI_PRIM_UINT16, '
+               'int: _CFFI_PRIM_INT32, unsigned int: _CFFI_PRIM_UINT32, long: _CFFI_PRIM_INT64, unsigned long: _CFFI_PRIM_UINT64, '
+               'long long: _CFFI_PRIM_INT64, unsigned long long: _CFFI_PRIM_UINT64, float: _CFFI_PRIM_FLOAT, double: _CFFI_PRIM_DOUBLE, default: -99)\n')
+
+
+def g5(run, thorough):
+    """`typedef int... T;` / `typedef float... T;`: the expression the generator emits to let the compiler pick
+    the primitive must evaluate, for every integer type, to the primitive of T's real type (compile-only witness)"""
+    from .c10 import compile_asserts
+    from ..cast.loader import repo_root, py_include
+    text = gen.generated()['p_dotint']
+    m = re.search(r'_cffi_types\[\] = \{(.*?)\n\};', text, re.S)
+    run.need(m is not None, 'generated p_dotint.c has no _cffi_types table')
+    rows = re.findall(r'/\*\s*\d+\s*\*/\s*_CFFI_OP\(_CFFI_OP_PRIMITIVE,\s*(_cffi_prim_(?:int|float)\(.*?\))\),\s*//\s*(\w+)(?=\n|$)', m.group(1), re.S)
+    run.need(len(rows) >= 14, 'generated p_dotint.c: expected >= 14 compiler-resolved primitive rows, found %d' % len(rows))
+    asserts = []
+    for expr, tname in rows:
+        e = ' '.join(re.sub(r'/\*.*?\*/', ' ', expr, flags=re.S).split())
+        asserts.append(('_Static_assert((%s) == VERIF_PRIM_OF(%s), "row %s");' % (e, tname, tname), 'row %s' % tname, 'emitted: %s' % e))
+    compile_asserts(run, 'G5/compiler-resolved-primitive-is-the-real-type', 'Recompiler._emit_bytecode_Unknown{Integer,Float}Type', 'corpus p_dotint',
+                    text + '\n' + INT_GENERIC, asserts, thorough,
+                    flags=['-I' + os.path.join(repo_root(), 'src/cffi'), '-I' + py_include(), '-DNDEBUG'])
+    return len(asserts)
+
+
 def rows_of(text, decl):
     m = re.search(re.escape(decl) + r'\[\] = \{(.*?)\n\};', text, re.S)
     if not m:
@@ -292,11 +318,13 @@ def check(run):
     run.need(n1 >= 20, 'struct rows checked: %d' % n1)
     n2 = g2(run, expect)
     run.need(n2 >= 10, 'integer constants checked: %d' % n2)
+    g5(run, run.tier == 'thorough')
     b1(run, tu)
     b2(run, tu)
     run.min_instances('G1/check-flag-iff-fully-declared', 20)
     run.min_instances('G1/field-offset-and-size-taken-from-the-compiler', 30)
     run.min_instances('G2', 12)
+    run.min_instances('G5', 14)
     run.min_instances('B1', 9)
     run.min_instances('B2', 4)
     run.assume('that calls return what C returns and that addresses are the compiler\'s is true by construction of the generated wrappers and not decided here')
